@@ -199,7 +199,7 @@ func (c08Engine) Gen(seed uint64, idx int, tier string) interface{} {
 	if r.Chance(1, 5) {
 		// a feature probe (skipped when this version of the library rejects it): operations
 		// that would write into shared slices if they shared memory with their inputs
-		ps := ProgSpec{Kind: "probe", Raw: r.Pick([]string{"Xs[:1] + Ys", "Xs[:1] + Xs[1:]", "[3, 1, 2, 9][:A % 3] + Ys", "Ss[:1] + Ss", "O.Xs[:1] + Xs", "map(Xs[:2], {#}) + Xs"}), Optimize: true}
+		ps := ProgSpec{Kind: "probe", Raw: r.Pick([]string{"Xs[:1] + Ys", "Xs[:1] + Xs[1:]", "[3, 1, 2, 9][:A % 3] + Ys", "Ss[:1] + Ss", "O.Xs[:1] + Xs", "map(Xs[:2], {#}) + Xs", "PromV", "PromV + A", "[A, PromV]"}), Optimize: true}
 		ps.Source = ps.Raw
 		sc.Progs[r.Intn(len(sc.Progs))] = ps
 	}
